@@ -6,6 +6,7 @@
 -/
 import Proofs.WF
 import Proofs.Short
+import Proofs.SetClosed
 import Facts.Generated
 namespace C15
 open Esdt
@@ -105,6 +106,47 @@ theorem wf_history (steps : List Step) (hok : ∀ s ∈ steps, StepOK s) :
       obtain ⟨hc', hs'⟩ := wf_step s.f s.env s.c { accts := A } ctx' out h hs h4 h3 he
       exact ih' _ hc' hs'
     · exact ih' _ h hs
+
+/-- FULL (all 23 functions, any interleaving): every successful call keeps one record per address (`Accts.Nodup`,
+    which is what makes the per-key sums `balAt` of C01/C02 well defined), well-formedness and short values — three of
+    the four parts of the world invariant `SInv` of the history theorems of C01/C02/C04/C07/C08, so that foreign calls of
+    ANY function between the steps of those histories cannot break them (the fourth, `MdPos`, is per-world: a forged
+    destination-form payload may carry metadata with nonce 0) -/
+theorem base_invariant_step (f : FnId) (env : Env) (c : Call) (ctx ctx' : Ctx) (out : VMOutput)
+    (hN : ctx.accts.Nodup) (hC : Canon ctx.accts) (hS0 : Short ctx.accts) (ha : ArgsShort c)
+    (hreach : c.caller = c.rcv → present env.nshards env.self c.caller = true)
+    (h : exec env f c ctx = .ok (out, ctx')) : ctx'.accts.Nodup ∧ Canon ctx'.accts ∧ Short ctx'.accts :=
+  ⟨nodup_step f env c ctx ctx' out hN h, wf_step f env c ctx ctx' out hC hS0 ha hreach h⟩
+
+/-- FULL (history level): the same over every history of calls of all 23 functions -/
+theorem base_invariant_history (steps : List Step) (hok : ∀ s ∈ steps, StepOK s) :
+    ∀ A, A.Nodup → Canon A → Short A → (run steps A).Nodup ∧ Canon (run steps A) ∧ Short (run steps A) := by
+  induction steps with
+  | nil => intro A hn h hs; exact ⟨hn, h, hs⟩
+  | cons s rest ih =>
+    intro A hn h hs
+    have ih' := ih (fun s' hs' => hok s' (by simp [hs']))
+    obtain ⟨h3, h4⟩ := hok s (by simp)
+    unfold run
+    split
+    · rename_i out ctx' he
+      obtain ⟨hn', hc', hs'⟩ := base_invariant_step s.f s.env s.c { accts := A } ctx' out hn h hs h4 h3 he
+      exact ih' _ hn' hc' hs'
+    · exact ih' _ hn h hs
+
+/-- any invariant closed under replacing one account's record survives every history (the model changes the account
+    table in no other way) -/
+theorem set_closed_history (I : Accts → Prop) (hI : SetClosed I) (steps : List Step) :
+    ∀ A, I A → I (run steps A) := by
+  induction steps with
+  | nil => intro A h; exact h
+  | cons s rest ih =>
+    intro A h
+    unfold run
+    split
+    · rename_i out ctx' he
+      exact ih _ (setClosed_step hI s.f s.env s.c { accts := A } ctx' out h he)
+    · exact ih _ h
 
 /-! non-vacuity: a state with one protocol-written entry is well-formed and short; a mint on it succeeds -/
 def sampleEnv : Env := { self := 0, nshards := 1, payable := fun _ => .yes, dns := [], nameChange := false, gas := {}, active := true }
